@@ -199,6 +199,18 @@ def _mirsym():
         ["disk_store::meta_store::MetaStore::deserialize (get_next_wal_id block + MetaStore construction block)"], bounds="all u64 persisted values",
         spec=sw.DeserializeCursorSpec(), stubs=["capnp reader calls -> havoc", "the cursor local is written exactly once (checked syntactically on the MIR)"])
 
+    from .specs import envelope as se
+    add("C14.a/envelope_load", "C14", "mirsym", Q,
+        "VersionedChecksummedBlobWriter::load accepts a file iff len >= 48, version == 0, length field == len - 48 and bytes[16..48] == SHA256(bytes[48..]), and returns exactly bytes[48..]; so truncations, suffixes and header flips are rejected and payload/checksum flips are rejected unless they are SHA-256 collisions",
+        ["disk_store::file_writer::<impl BlobWriter for VersionedChecksummedBlobWriter>::load"],
+        bounds="file lengths {0,1,47,48,49,50} (quick) / 0..56 (thorough), every byte symbolic; SHA-256 is an uninterpreted function (32 symbols for H(payload)); inner writer stubbed",
+        spec=se.EnvelopeLoadSpec(), stubs=["Sha256::{new,update,finalize} -> uninterpreted hash of the bytes fed", "inner BlobWriter::load -> the symbolic file"],
+        assumptions=["SHA-256 collision resistance (not a solver question)"])
+    add("C14.a/envelope_store", "C14", "mirsym", Q, "VersionedChecksummedBlobWriter::store writes [0u64 BE][len BE][SHA256(data)][data]; store then load is the identity",
+        ["disk_store::file_writer::<impl BlobWriter for VersionedChecksummedBlobWriter>::store"],
+        bounds="payload lengths {0,1,3} (quick) / 0..8 (thorough), bytes symbolic", spec=se.EnvelopeStoreSpec(),
+        stubs=["Sha256 -> uninterpreted hash", "inner BlobWriter::store -> records the bytes"])
+
 
 _mirsym()
 
